@@ -6,4 +6,4 @@ Definition z_wc_step := @wc_step Z Z.eqb idsort.
 Definition z_getslice := @sl_getslice Z.
 Definition z_read := @V_read Z.
 Definition z_init := @init Z.
-Extraction "wikiedit_model.ml" z_wc_step z_getslice z_read z_init.
+Extraction "wikiedit_model.ml" Z.succ N.succ Nat.succ z_wc_step z_getslice z_read z_init.
